@@ -26,6 +26,7 @@ EXPLANATION = (
     'length, marker characters, which field holds category / word / rule symbol, symbol printed from op_symbol and '
     'stored in both label slots, child order).  The round trips themselves (all categories, all tokens) are not decided.'
     ' utils.normalize, through which the Japanese writer sends the surface form, must leave every word other than the bracket names unchanged; the find()-slice rule carries an embedded example.'
+    " Third round: the reader's symbol set is evaluated as a constant expression (starred generators over range, f-strings)."
 )
 TRUSTED = ['CPython ast', 'sa/pysym.py path walker', 'independent category grammar sa/datafiles.py', 'rule table DESIGN.md C20']
 
@@ -104,6 +105,9 @@ def eval_unary_labels(repo):
             if ok:
                 hit = ret
                 break
+        if hit is not None and hit[0] == 'sub' and hit[1][0] in ('tuple', 'list') and hit[2] == A(N(p), 'nargs') \
+                and facts_n < len(hit[1][1]):
+            hit = hit[1][1][facts_n]        # a literal table indexed by the number of arguments
         if hit is None or hit[0] != 'const':
             return None, table
         labels.add(hit[1])
@@ -113,9 +117,10 @@ def eval_unary_labels(repo):
 def r_symbols(repo, rep, R='R20.2'):
     jm = repo.module(JRD)
     val = jm.assign('combinators')
-    if not isinstance(val, (ast.Set, ast.List, ast.Tuple)) or not all(isinstance(e, ast.Constant) for e in val.elts):
-        raise AnalysisError('%s: `combinators` is not a literal collection of strings' % JRD)
-    vocab = {e.value for e in val.elts}
+    got = rg.const_strings(jm, val) if val is not None else None
+    if got is None:
+        raise AnalysisError('%s: the members of `combinators` cannot be read off the source' % JRD)
+    vocab = set(got)
     labels = grammar_labels(repo)['ja']
     need = {y for _, y in labels['binary']}
     reach, table = eval_unary_labels(repo)
@@ -218,7 +223,7 @@ def _r_find_guard_old(repo, rep, R='R20.3'):
     return n
 
 
-def r_ptb(repo, rep):
+def r_ptb(repo, rep, writer_only=False, RT='R20.6', RE='R20.5'):
     pm = repo.module(PTB)
     rec = pm.get('ptb_of.rec')
     p = rec.args.args[0].arg
@@ -232,14 +237,14 @@ def r_ptb(repo, rep):
     w = '%s:%s ptb_of' % (PTB, rec.lineno)
     lt = codec.fstr_tokens(leaf)
     ok = len(lt) == 2 and lt[0][0] == '(' and lt[0][1] == A(N(p), 'cat') and len(lt[0]) == 2 and lt[1][-1] == ')' and len(lt[1]) == 2
-    rep.check(ok, 'R20.6', w, 'ptb_of:leaf-template', 'a leaf is written "(cat word)"', 'leaf template is %s' % [codec.tok_text(t) for t in lt])
+    rep.check(ok, RT, w, 'ptb_of:leaf-template', 'a leaf is written "(cat word)"', 'leaf template is %s' % [codec.tok_text(t) for t in lt])
     word_t = lt[1][0] if ok else None
     nt = codec.fstr_tokens(node)
     okn = len(nt) == 2 and nt[0][0] == '(' and nt[0][1] == A(N(p), 'cat') and nt[1][-1] == ')' and nt[1][0][0] == 'call' and nt[1][0][1] == A(C(' '), 'join')
     if okn:
         g = nt[1][0][2][0]
         okn = g[0] in ('genexp', 'listcomp') and g[2][0][0] == A(N(p), 'children') and not g[2][0][1]
-    rep.check(okn, 'R20.6', w, 'ptb_of:node-template', 'a node is written "(cat child child)" with all children in order',
+    rep.check(okn, RT, w, 'ptb_of:node-template', 'a node is written "(cat child child)" with all children in order',
               'node template is %s' % [codec.tok_text(t)[:60] for t in nt])
     prefix = None
     if len(top) == 1 and top[0][1][0] == 'fstr' and isinstance(top[0][1][1][0], str):
@@ -247,7 +252,7 @@ def r_ptb(repo, rep):
         okr = top[0][1][1][-1] == ')' and len(top[0][1][1]) == 3
     else:
         okr = False
-    rep.check(okr, 'R20.6', w, 'ptb_of:root', 'the line is wrapped as "%s...)"' % prefix, 'root template is %s' % (show(top[0][1]) if top else None))
+    rep.check(okr, RT, w, 'ptb_of:root', 'the line is wrapped as "%s...)"' % prefix, 'root template is %s' % (show(top[0][1]) if top else None))
     # escaping
     esc = []
     if word_t is not None:
@@ -257,8 +262,10 @@ def r_ptb(repo, rep):
         okb = False
     em = dict(esc)
     oke = okb and set(em) >= {'(', ')'} and all(not any(ch in v for ch in '() ') and v for v in em.values()) and len(set(em.values())) == len(em)
-    rep.check(oke, 'R20.5', w, 'ptb_of:escape', 'round brackets inside words are written as bracket-free, blank-free, distinct replacements %s' % em,
+    rep.check(oke, RE, w, 'ptb_of:escape', 'round brackets inside words are written as bracket-free, blank-free, distinct replacements %s' % em,
               'the word is written as %s: a token that is or contains a round bracket breaks the S-expression' % (show(word_t)[:60] if word_t else '?'))
+    if writer_only:
+        return
     # reader
     rm = repo.module(RD)
     pp = rm.get('_parse_ptb')
